@@ -89,10 +89,10 @@ impl Prop for C05 {
         "C05"
     }
     fn rule(&self) -> String {
-        "kind ∈ {SEQUENCE, SET, CHOICE, ENUMERATED} × root size r (quick 0..2, thorough 0..4; CHOICE/ENUMERATED r>=1) × marker absent/present × every addition layout of length a (quick <=3 with <=1 group, thorough <=6 with <=3 groups) where an addition is a plain component or a [[ ]] group of 1..3 components, with and without version numbers × top-level / nested anonymous × EXTENSIBILITY IMPLIED on/off × tagging default (AUTOMATIC; thorough also EXPLICIT). Oracle: #[non_exhaustive] ⇔ marker ∨ IMPLIED; extension_addition exactly on components at index >= r; one extension_addition_group member of Option<Group> per group whose struct has exactly the grouped components in order (CHOICE: grouped alternatives are plain additions); ENUMERATED additions carry extension_addition. Non-trivial: compiled cleanly and compared.".into()
+        "kind ∈ {SEQUENCE, SET, CHOICE, ENUMERATED} × root size r (quick 0..2, thorough 0..4; CHOICE/ENUMERATED r>=1) × marker absent/present × every addition layout of length a (quick <=4 with <=3 groups, thorough <=6 with <=3 groups) where an addition is a plain component or a [[ ]] group of 1..3 components, with and without version numbers × top-level / nested anonymous × EXTENSIBILITY IMPLIED on/off × tagging default (AUTOMATIC; thorough also EXPLICIT). Oracle: #[non_exhaustive] ⇔ marker ∨ IMPLIED; extension_addition exactly on components at index >= r; one extension_addition_group member of Option<Group> per group whose struct has exactly the grouped components in order (CHOICE: grouped alternatives are plain additions); ENUMERATED additions carry extension_addition. Non-trivial: compiled cleanly and compared.".into()
     }
     fn enumerate(&self, tier: Tier, _seed: u64) -> Vec<Case> {
-        let (rmax, amax, gmax) = if tier.thorough() { (4usize, 6usize, 3usize) } else { (2, 3, 1) };
+        let (rmax, amax, gmax) = if tier.thorough() { (4usize, 6usize, 3usize) } else { (2, 4, 3) };
         let mut layouts: Vec<Vec<u8>> = vec![vec![]];
         let mut all: Vec<Vec<u8>> = vec![vec![]];
         for _ in 0..amax {
